@@ -13,12 +13,12 @@ import (
 
 // Violation one refutation with its structured witness
 type Violation struct {
-	Kind    string                 `json:"kind"`
-	Params  map[string]string      `json:"params"`
-	Text    string                 `json:"text"`
-	Witness interface{}            `json:"witness,omitempty"`
-	Case    interface{}            `json:"case,omitempty"`
-	Known   string                 `json:"known_finding,omitempty"`
+	Kind    string            `json:"kind"`
+	Params  map[string]string `json:"params"`
+	Text    string            `json:"text"`
+	Witness interface{}       `json:"witness,omitempty"`
+	Case    interface{}       `json:"case,omitempty"`
+	Known   string            `json:"known_finding,omitempty"`
 }
 
 // KnownFinding entry of /verif/KNOWN_FINDINGS.json
@@ -33,28 +33,28 @@ type KnownFinding struct {
 
 // Run one check run: counters, verdicts, evidence
 type Run struct {
-	Prop     string
-	Tier     string
-	Seed     int64
-	Level    string
-	Verif    string // /verif
-	Scratch  string
-	Start    time.Time
-	Replay   string
+	Prop    string
+	Tier    string
+	Seed    int64
+	Level   string
+	Verif   string // /verif
+	Scratch string
+	Start   time.Time
+	Replay  string
 
-	mu        sync.Mutex
-	Evals     int64
-	distinct  map[string]struct{}
-	samples   []interface{}
-	Cov       map[string]interface{}
-	counters  map[string]int64
-	viol      []Violation
-	knownHit  map[string]int
-	known     []KnownFinding
-	incon     []string
-	Rule      string
-	Assume    []string
-	MaxViol   int
+	mu       sync.Mutex
+	Evals    int64
+	distinct map[string]struct{}
+	samples  []interface{}
+	Cov      map[string]interface{}
+	counters map[string]int64
+	viol     []Violation
+	knownHit map[string]int
+	known    []KnownFinding
+	incon    []string
+	Rule     string
+	Assume   []string
+	MaxViol  int
 }
 
 // Flags common command line flags of the vrun sub-commands
